@@ -27,6 +27,7 @@ import numpy as np
 warnings.filterwarnings("ignore")
 
 import common
+import c05_rw
 from common import Check, LEAN, lean_bool, lean_list, lean_str, write_if_changed
 
 META = {
@@ -38,7 +39,10 @@ META = {
     "level_text": "Kernel-checked: dtype_class_preserved, float_width_follows_flag, requested_width_kept, "
                   "reconcile_class_preserved, int_kept_or_int64 (all dtype codes), prune_keeps_positional (full strength, all "
                   "argument lists: no positional input is ever dropped or reordered, NCHW-flagged or not), "
-                  "rename_exact_and_injective (all rename requests). The live policy function, the live "
+                  "rename_exact_and_injective (all rename requests); run_outs / iface_preserved (every optimizer rewiring "
+                  "history keeps count, order and, under the per-step guard, every declaration of the graph outputs), "
+                  "rename_exact_and_injective_after_history, predicted_interface_describes_wrapped (declared dims of "
+                  "outputs_as_nchw outputs are permuted like the values, on C12's adapter model). The live policy function, the live "
                   "Cast/keep decision and the live always-keep rule are tabulated each run and proved equal to "
                   "the reference (decide +kernel).",
     "level_note": "Trusted: Lean kernel + 3 axioms; the tabulating/probing harness. Outputs' order, count, "
@@ -51,7 +55,7 @@ META = {
     "design_ref": "DESIGN.md §3 C05",
 }
 
-MODS = ["J2O.Props.C05", "J2O.GenProps.C05"]
+MODS = ["J2O.Props.C05", "J2O.Props.C05Wrap", "J2O.GenProps.C05"]
 POS_RE = re.compile(r"^in_(\d+)(_nchw)?$")
 
 
@@ -432,11 +436,13 @@ def _input_spec(kind: str):
     import jax.numpy as jnp
     S = jax.ShapeDtypeStruct
     return {"img": (2, 4, 5, 3), "vec": (3,), "mat": (2, 3), "sym": ("B", 4), "sym3": ("B", 3, "C"),
-            "int": S((3,), jnp.int32), "bool": S((2,), jnp.bool_), "f16": S((3,), jnp.float16)}[kind]
+            "int": S((3,), jnp.int32), "bool": S((2,), jnp.bool_), "f16": S((3,), jnp.float16),
+            # image-like inputs of the rewritten-output family: the four extents differ pairwise
+            "imgs": ("B", 4, 5, 3), "imgb": S((2, 4, 5, 3), jnp.bool_), "chw": (2, 3, 4, 5), "img7": (1, 6, 7, 2)}[kind]
 
 
 def _cls(kind: str) -> str:
-    return {"int": "i", "bool": "b"}.get(kind, "f")
+    return {"int": "i", "bool": "b", "imgb": "b"}.get(kind, "f")
 
 
 LEAF_OPS = {
@@ -508,6 +514,8 @@ def build_fn(prog: dict):
                 vals.append(jnp.arange(3))
             elif l["op"] == "dup":
                 vals.append(vals[l["of"]])
+            elif l["op"] == "chain":
+                vals.append(c05_rw.apply_chain(l, xs[l["arg"]]))
             else:
                 vals.append(_leaf(l["op"], _cls(kinds[l["arg"]]), xs[l["arg"]]))
         if tree == "single":
@@ -666,6 +674,14 @@ def oracle(prog: dict, cfg: dict, exp_in, exp_out, model) -> list[dict]:
                 if isinstance(b, int) and isinstance(a, int) and a != b:
                     dev.append({"kind": "output_static_dim", "index": j, "expected": dims, "got": g["dims"]})
                     break
+                # a dimension that is symbolic in the callable's signature is not declared with a fixed extent, and a
+                # plain symbol (an input's symbol, not a derived expression) keeps its name when it is named at all
+                if isinstance(b, str) and isinstance(a, int):
+                    dev.append({"kind": "output_symbolic_dim", "index": j, "expected": dims, "got": g["dims"]})
+                    break
+                if isinstance(b, str) and b.isidentifier() and isinstance(a, str) and a.isidentifier() and a != b:
+                    dev.append({"kind": "output_symbolic_dim", "index": j, "expected": dims, "got": g["dims"]})
+                    break
         if cfg.get("output_names") and g["name"] != cfg["output_names"][j]:
             dev.append({"kind": "output_name", "index": j, "expected": cfg["output_names"][j], "got": g["name"]})
     names = [g["name"] for g in gin] + [g["name"] for g in gout]
@@ -712,10 +728,46 @@ def run_values(prog: dict, cfg: dict, exp_in, model, rng: common.Rng) -> Optiona
         if b.dtype.kind == "c":
             b = np.stack([b.real, b.imag], axis=-1)
         a = np.asarray(a)
-        if a.shape != b.shape or not np.allclose(a.astype(np.float64), b.astype(np.float64), rtol=2e-2, atol=1e-3):
+        if a.shape != b.shape or not np.allclose(a.astype(np.float64), b.astype(np.float64), rtol=2e-2, atol=1e-3,
+                                                  equal_nan=True):
             return {"kind": "output_value", "index": j, "ort": a.reshape(-1)[:5].tolist(),
                     "jax": b.reshape(-1)[:5].tolist(), "ort_shape": list(a.shape), "jax_shape": list(b.shape)}
     return None
+
+
+def _dims_compatible(pred: list, got: list) -> bool:
+    """Predicted dims (strings from the Lean model) vs declared dims: equal rank, static extents equal, a symbolic
+    dimension never fixed, a plain symbol keeps its name when it is named."""
+    if got == ["?"]:
+        return True
+    if len(pred) != len(got):
+        return False
+    for p_, g in zip(pred, got):
+        if p_.isdigit():
+            if g.isdigit() and g != p_:
+                return False
+        elif g.isdigit():
+            return False
+        elif p_.isidentifier() and g.isidentifier() and p_ != g:
+            return False
+    return True
+
+
+def _leaf_of_output(prog: dict, j) -> dict:
+    leaves = prog["leaves"]
+    if prog["tree"] == "dict":
+        leaves = list(reversed(leaves))
+    l = leaves[j] if isinstance(j, int) and j < len(leaves) else {"op": "?"}
+    while l.get("op") == "dup":
+        l = prog["leaves"][l["of"]]
+    return l
+
+
+def _int_minmax(prog: dict, j) -> Optional[str]:
+    l = _leaf_of_output(prog, j)
+    if l.get("op") != "chain":
+        return None
+    return c05_rw.culprit_int_minmax(prog["kinds"][l["arg"]], l["ops"])
 
 
 def _leaf_op_of_output(prog: dict, j: int) -> str:
@@ -760,6 +812,9 @@ def directed_cases() -> list:
         (_p(["vec", "mat", "int"], [False, True, False], [L("scale", 1)], "single"),
          {"input_names": ["arg_a", "arg_b", "arg_c"], "output_names": ["res_0"]}),
         (_p(["vec", "vec"], [False, False], [L("const_arr")], "single"), {}),
+        # more than ten positional arguments (two-digit indices), the late ones unused
+        (_p(["vec"] * 12, [True] + [False] * 11, [L("scale", 0)], "single"), {}),
+        (_p(["vec"] * 11 + ["img"], [False] * 10 + [True, False], [L("scale", 10)], "single"), {"inputs_as_nchw": [11]}),
         # used NCHW input and output
         (_p(["img", "vec"], [True, True], [L("scale", 0), L("scale", 1)]),
          {"inputs_as_nchw": [0], "outputs_as_nchw": [0], "double": True}),
@@ -793,36 +848,57 @@ def directed_cases() -> list:
     ]
 
 
-def corr_programs(chk: Check, rng: common.Rng, n: int, batch: Batch) -> dict:
+def _work_items(rng: common.Rng, n: int, n_rw: int, stats: dict):
+    """(program, configuration, expected inputs, expected outputs, family) — directed cases first."""
+    for it, (prog, cfg) in enumerate(directed_cases() + c05_rw.directed()):
+        cfg = dict(cfg)
+        cfg.setdefault("double", False)
+        try:
+            exp_in, exp_out = expected_interface(prog, cfg)
+        except Exception as e:
+            raise RuntimeError(f"directed case {it} cannot be evaluated by JAX: {e}")
+        yield prog, cfg, exp_in, exp_out, ("rw" if any(l["op"] == "chain" for l in prog["leaves"]) else "base")
+    for it in range(n + n_rw):
+        rw = it >= n
+        prog = c05_rw.gen_program(rng) if rw else gen_program(rng)
+        try:
+            _, exp_out0 = expected_interface(prog, {"double": False})
+            cfg = (c05_rw.gen_config if rw else gen_config)(rng, prog, [len(e["dims"]) for e in exp_out0])
+            exp_in, exp_out = expected_interface(prog, cfg)
+        except Exception as e:
+            stats["unsupported"] += 1
+            continue
+        yield prog, cfg, exp_in, exp_out, ("rw" if rw else "base")
+
+
+def corr_programs(chk: Check, rng: common.Rng, n: int, batch: Batch, n_rw: int = 0) -> dict:
     import jax
     from jax2onnx import to_onnx
     ir = _ir()
     stats = {"programs": 0, "exports_ok": 0, "invalid_config_rejected": 0, "invalid_config_accepted": 0,
              "raises_on_valid": 0, "input_prediction_checked": 0, "values_checked": 0, "deviations": 0,
-             "unsupported": 0}
+             "unsupported": 0, "rewritten_output_programs": 0, "optimizer_stages_seen": 0,
+             "optimizer_stages_changing_outputs": 0, "output_dims_predicted": 0}
     lines, pending = [], []
     unlisted = 0
     seen_patterns: dict[str, int] = {}
-    directed = directed_cases()
-    for it in range(n + len(directed)):
-        if it < len(directed):
-            prog, cfg = directed[it]
-            cfg = dict(cfg)
-            cfg.setdefault("double", False)
-            try:
-                exp_in, exp_out = expected_interface(prog, cfg)
-            except Exception as e:
-                raise RuntimeError(f"directed case {it} cannot be evaluated by JAX: {e}")
-        else:
-            prog = gen_program(rng)
-            try:
-                cfg0 = {"double": False}
-                _, exp_out0 = expected_interface(prog, cfg0)
-            except Exception as e:
-                stats["unsupported"] += 1
-                continue
-            cfg = gen_config(rng, prog, [len(e["dims"]) for e in exp_out0])
-            exp_in, exp_out = expected_interface(prog, cfg)
+    tab = c05_rw.op_table()
+    chk.info("live_elementwise_sets", tab["live"]["sets"])
+    chk.info("elementwise_ops_reached", sorted(tab["fn"]))
+    chk.info("unreached_ops", tab["unreached"])
+    ops_last: dict[str, int] = {}
+    probe = c05_rw.OptimizerProbe()
+    probe.__enter__()
+    stage_changes: dict[str, int] = {}
+    hist_lines: list = []
+    for prog, cfg, exp_in, exp_out, family in _work_items(rng, n, n_rw, stats):
+        if family == "rw":
+            stats["rewritten_output_programs"] += 1
+            for l in prog["leaves"]:
+                if l["op"] == "chain":
+                    for k, o in enumerate(l["ops"]):
+                        if k >= 1:
+                            ops_last[o] = ops_last.get(o, 0) + 1
         fn = build_fn(prog)
         stats["programs"] += 1
         kw = {k: v for k, v in cfg.items() if k in ("inputs_as_nchw", "outputs_as_nchw", "input_names", "output_names")}
@@ -834,6 +910,7 @@ def corr_programs(chk: Check, rng: common.Rng, n: int, batch: Batch) -> dict:
                      ("nested", prog["tree"] in ("nested", "dict")), ("symbolic", any(k.startswith("sym") for k in prog["kinds"]))):
             if v:
                 seen_patterns[k] = seen_patterns.get(k, 0) + 1
+        probe.take()
         try:
             model = to_onnx(fn, [_input_spec(k) for k in prog["kinds"]], enable_double_precision=cfg["double"], **kw)
         except (ValueError, TypeError) as e:
@@ -872,6 +949,33 @@ def corr_programs(chk: Check, rng: common.Rng, n: int, batch: Batch) -> dict:
         pending.append((case, cfg, [_vi(v) for v in model.graph.input]))
         # the property oracle on the real model
         dev = oracle(prog, cfg, exp_in, exp_out, model)
+        # the optimizer's effect on the output list, stage by stage, as a history for the Lean model (`runChecked`)
+        recs = probe.take()
+        stats["optimizer_stages_seen"] += len(recs)
+        whole = [r for r in recs if r[0] == "optimize_graph"]
+        if whole and not dev:
+            nchw_out = set(cfg.get("outputs_as_nchw", []))
+            hist_lines.append((json.dumps({"op": "outdims", "outs": [
+                {"dims": [str(d) for d in e["dims"]], "nchw": j in nchw_out, "complex": e["dtype"].kind == "c"}
+                for j, e in enumerate(exp_out)]}), case, "binding", whole[0][1]))
+        per_pass = [r for r in recs if r[0] != "optimize_graph"]
+        clean = not dev
+        stages_here = []
+        for name, before, after in (per_pass or whole):
+            h = c05_rw.history_of(before, after)
+            if h is None:
+                continue
+            stats["optimizer_stages_changing_outputs"] += 1
+            stage_changes[name] = stage_changes.get(name, 0) + 1
+            stages_here.append({"stage": name, "outputs_before": [[b["name"], b["dtype"], b["dims"]] for b in before],
+                                "outputs_after": [[a_["name"], a_["dtype"], a_["dims"]] for a_ in after]})
+            if "length_changed" in h:
+                dev.append({"kind": "output_count_changed_by_optimizer", "stage": name, "lengths": h["length_changed"]})
+                continue
+            if clean:
+                # (an export that already deviates is reported through the oracle, with these stages in its replay)
+                hist_lines.append((json.dumps({"op": "history", "outs": h["outs"], "decl": h["decl"], "steps": h["steps"]}),
+                                   case, name, h))
         vdev = run_values(prog, cfg, exp_in, model, rng) if not dev else None
         if vdev is None and not dev:
             stats["values_checked"] += 1
@@ -897,13 +1001,16 @@ def corr_programs(chk: Check, rng: common.Rng, n: int, batch: Batch) -> dict:
                 key = {"kind": "aliased_output_renames_input"}
             elif d["kind"] == "output_dtype" and d["jax"] == "float16" and d["declared"] == 1:
                 key = {"kind": "half_result_declared_float", "op": _leaf_op_of_output(prog, d["index"])}
+            elif d["kind"] in ("output_dtype", "output_value") and _int_minmax(prog, d.get("index")) and \
+                    (d["kind"] == "output_value" or (str(d["jax"]).startswith("float") and d["declared"] in (2, 3, 4, 5, 6, 7, 12, 13))):
+                key = {"kind": "int_kept_for_float_result", "op": _int_minmax(prog, d.get("index"))}
             elif d["kind"] in ("output_rank", "output_value") and d.get("index") in set(cfg.get("outputs_as_nchw", [])) \
                     and exp_out[d["index"]]["dtype"].kind == "c":
                 key = {"kind": "complex_output_as_nchw"}
             else:
                 key = {"kind": d["kind"], "detail": json.dumps({k: v for k, v in d.items() if k != "kind"}, default=str)[:200]}
             if not chk.finding(key, f"interface deviates from the callable's signature: {d}",
-                               {"program": case, "deviation": d,
+                               {"program": case, "deviation": d, "optimizer_stages_that_changed_the_outputs": stages_here,
                                 "real_inputs": [_vi(v) for v in model.graph.input],
                                 "real_outputs": [_vi(v) for v in model.graph.output]}):
                 unlisted += 1
@@ -930,6 +1037,36 @@ def corr_programs(chk: Check, rng: common.Rng, n: int, batch: Batch) -> dict:
     for ln, (case, cfg, real_in) in zip(lines, pending):
         batch.add(ln, (lambda a, case=case, cfg=cfg, real_in=real_in: judge(a, case, cfg, real_in)))
     chk.add("traces_validated_against_impl", len(lines))
+    probe.__exit__(None, None, None)
+
+    def judge_hist(a, case, stage, real):
+        ans = json.loads(a)
+        if isinstance(ans, dict) and "bad" in ans:
+            raise RuntimeError(f"driver: {ans}")
+        if stage == "binding":
+            # declared dims right after output binding (before the optimizer) vs the model's prediction from eval_shape
+            stats["output_dims_predicted"] += 1
+            got = [c05_rw._sd(o["dims"]) for o in real]
+            if len(ans) != len(got) or any(not _dims_compatible(p, g) for p, g in zip(ans, got)):
+                disagreements.append({"program": case, "stage": "output binding", "model": ans, "real": got})
+                stats["prediction_disagreements"] += 1
+            return None
+        stats["histories_checked"] = stats.get("histories_checked", 0) + 1
+        if (not ans["ok"]) or ans["outs"] != real["after_outs"] or \
+                [x and x[1] for x in ans["iface"]] != [x[1] for x in real["after_iface"]]:
+            disagreements.append({"program": case, "stage": stage, "history": real, "model": ans,
+                                  "why": "an optimizer stage replaced / re-declared a graph output with a different "
+                                         "declaration (guard of iface_preserved fails)" if not ans["ok"] else
+                                         "the model's replay of the stage differs from the real output list"})
+            stats["prediction_disagreements"] += 1
+        return None
+
+    for ln, case, stage, real in hist_lines:
+        batch.add(ln, (lambda a, case=case, stage=stage, real=real: judge_hist(a, case, stage, real)))
+    chk.add("traces_validated_against_impl", len(hist_lines))
+    stats["optimizer_probe_mode"] = probe.mode
+    stats["stages_changing_outputs"] = stage_changes
+    stats["chain_ops_after_first_position"] = ops_last
     stats["patterns"] = seen_patterns
     stats["prediction_disagreements"] = 0
     chk.info("program_stats", stats)
@@ -981,7 +1118,7 @@ def run(chk: Check) -> None:
     corr_rename(chk, rng, n, batch)
     corr_materialize(chk, rng, n, batch)
     chk.log(f"real helper functions driven at {round(time.time() - chk.t0, 1)} s")
-    res = corr_programs(chk, rng, 2500 if thorough else 250, batch)
+    res = corr_programs(chk, rng, 2500 if thorough else 250, batch, n_rw=1500 if thorough else 110)
     chk.log(f"programs exported at {round(time.time() - chk.t0, 1)} s")
     bad = batch.run()          # the single Lean driver invocation of this run
     chk.log(f"Lean driver answered {len(batch.lines)} requests at {round(time.time() - chk.t0, 1)} s")
@@ -1011,12 +1148,19 @@ def run(chk: Check) -> None:
         "an output that IS an input (or the same value returned twice) may repeat a name unless output_names are given",
         "a float output may keep FLOAT under the double flag only when the callable asked for float32 explicitly",
         "ONNX Runtime vs eager JAX (rtol 2e-2) identifies which output is which",
+        "optimizer histories are reconstructed from snapshots of graph.outputs around each stage (identity, element-type "
+        "class, dims); declarations are compared up to the element-type class (widths: reconcile / C09)",
     ]
     chk.coverage["rule"] = (
         "tables: complete finite domains (exhaustive). Helper correspondences: seeded small graphs / name lists "
-        "(non-trivial = something unused / a request present). Programs: 18 directed cases + 250 (quick) / 2500 (thorough) seeded programs "
+        "(non-trivial = something unused / a request present). Programs: 20 directed cases + 250 (quick) / 2500 (thorough) seeded programs "
         "(1-3 inputs of 9 kinds, used/unused, 1-4 result leaves of 14 kinds incl. duplicates, inputs, constants, "
         "complex; 5 result-tree shapes) x configurations (precision, NCHW in/out, valid/invalid input/output names); "
+        "rewritten-output family: directed (every operator of the live optimizer's ELEMENTWISE sets that a JAX spelling "
+        "reaches, as last node of chains of length 2 and 3, between layout flags and between explicit transposes; "
+        "forests, aliases, duplicates, reshape/cast pairs) + 110 (quick) / 1500 (thorough) seeded programs over image "
+        "inputs with pairwise different extents; per export the optimizer's stages are snapshotted and every stage "
+        "that changes the output list is replayed by the Lean history model; "
         "every case is distinct by its full description")
     chk.coverage["exhaustive"] = False
 
